@@ -124,7 +124,8 @@ PROPS["C05"] = {
                   "zero nibbles/bytes in every position, two-byte combinations, edge and random scalars, plus PrivateKey -> PublicKey.",
     "level_note": "trusted: TLC, BigInt/EcAdd/EcMul overrides (self-tested), verif accessors reading the deserialised tables",
     "exhaustive": _MUL_A[:1] + [_MUL_A[1]],
-    "drivers": [{"driver": "basemul", "trace": "Trace_Point"}],
+    "drivers": [{"driver": "basemul", "trace": "Trace_Point"},
+                {"driver": "basemul", "trace": "Trace_Point", "tags": ("verif", "purego")}],        # both lookup configurations
     "require_classes": {"quick": ["tbl_huge", "tbl_odd", "tbl_row", "bm_single_byte", "bm_zero_nibble", "bm_edge", "bm_priv"]},
     "assumptions": ["table entries are exhaustively checked (finite set); multiplications on multi-byte scalars are sampled"],
     "min_counts": {"tbl_huge": 8160, "tbl_odd": 480, "tbl_row": 32, "bm_single_byte": 16320},
@@ -209,7 +210,7 @@ PROPS["C08"] = {
     "drivers": [{"driver": "sign", "trace": "Trace_Ecdsa"}],
     "require_classes": {"quick": ["d_one", "d_nm1", "pub_yodd", "pub_yeven", "digest_zero", "digest_ones", "digest_ge_n", "v0", "v1",
                                   "sv_same", "inadmissible_len", "inadmissible_enc", "rfc6979", "hedged", "sign_len_long", "enc_asn1", "enc_compact",
-                                  "enc_rec", "nil_opts"]},
+                                  "enc_rec", "nil_opts", "build_der", "build_short", "build_compact"]},
     "assumptions": ["x(R) >= n, r = 0 and s = 0 cannot be reached through signing at full size (2^-128); those branches are covered on the miniature model "
                     "and, for ids 2/3, by C11's direct recovery events"],
 }
